@@ -1198,7 +1198,7 @@ theorem value_decode_failure (cfg : W.Cfg) (env : Env) (h₁ : W.History) (u : W
   let P : W.TableDef → Prop := fun t => ∃ c' ∈ rowsBefore h₁ pre ++ [c], c'.table = t
   have ctx : Ctx env P := by
     refine ⟨?_, ?_⟩
-    · rintro t1 t2 ⟨c1, h1, rfl⟩ ⟨c2, h2, rfl⟩ hid
+    · rintro t1 t2 ⟨c1, h1, rfl⟩ ⟨c2, h2, rfl⟩ hid _ _
       exact sameInfo_infoOf (hwf.agree c1 h1 c2 h2 hid)
     · rintro t ⟨c', hc', rfl⟩
       exact hwf.mapper c' hc'
@@ -1257,6 +1257,7 @@ theorem count_redefinition (cfg : W.Cfg) (env : Env) (h₁ : W.History) (u : W.U
     (pre : List W.Change) (c c₀ : W.RowsChange) (hu : UnitAt u pre c)
     (hwf : WFUpTo cfg env h₁ u pre (rowsBefore h₁ pre)) (hc : RowsOK cfg c) (hne : c.rows ≠ [])
     (hann : c.announce = true) (h0 : c₀ ∈ rowsBefore h₁ pre) (hid : c₀.table.id = c.table.id)
+    (hname : c₀.table.db = c.table.db ∧ c₀.table.name = c.table.name)
     (hcount : c₀.table.cols.length ≠ c.table.cols.length) :
     parseEvents env (fun _ => true) (PState.init ⟨W.firstFile, 4⟩)
         ((W.serve cfg (h₁ ++ u :: h₂) ⟨W.firstFile, 4⟩).map Input.event ++ [Input.closed])
@@ -1265,7 +1266,7 @@ theorem count_redefinition (cfg : W.Cfg) (env : Env) (h₁ : W.History) (u : W.U
   let P : W.TableDef → Prop := fun t => ∃ c' ∈ rowsBefore h₁ pre, c'.table = t
   have ctx : Ctx env P := by
     refine ⟨?_, ?_⟩
-    · rintro t1 t2 ⟨c1, h1, rfl⟩ ⟨c2, h2, rfl⟩ hid
+    · rintro t1 t2 ⟨c1, h1, rfl⟩ ⟨c2, h2, rfl⟩ hid _ _
       exact sameInfo_infoOf (hwf.agree c1 h1 c2 h2 hid)
     · rintro t ⟨c', hc', rfl⟩
       exact hwf.mapper c' hc'
@@ -1294,7 +1295,13 @@ theorem count_redefinition (cfg : W.Cfg) (env : Env) (h₁ : W.History) (u : W.U
   have hcache : findTable st.tables c.table.id = some (entryOf t) := by rw [hI.cache, hl']; rfl
   simp only [hann, if_true, tmAEv] at hb ⊢
   obtain ⟨hb1, _⟩ := bnd_none hb
-  have hcl := cl_tm_known env st cfg hI.fmt off c.ts c.table hc.table c.tmOptional hc.ts hb1 (entryOf t) hcache
+  have hnm : (entryOf t).tableMap.database = c.table.db ∧ (entryOf t).tableMap.name = c.table.name := by
+    refine ⟨?_, ?_⟩
+    · show t.db = c.table.db
+      rw [← hct, hsame.1]; exact hname.1
+    · show t.name = c.table.name
+      rw [← hct, hsame.2.1]; exact hname.2
+  have hcl := cl_tm_known env st cfg hI.fmt off c.ts c.table hc.table c.tmOptional hc.ts hb1 (entryOf t) hcache hnm
   have hs := GV.C15.findTable_update_same st.tables c.table.id ⟨tmOf c.table, infoOf t⟩ (entryOf t) hcache
   let st' : PState :=
     { st with tables := st.tables.map fun p => if p.1 == c.table.id then (p.1, ⟨tmOf c.table, infoOf t⟩) else p }
